@@ -902,10 +902,12 @@ func (r *Reader) processHeading(h headingXML) parsedParagraph {
 		Level:     1, // Default level
 	}
 
-	// Parse outline level
+	// Parse outline level: the heading's own text:outline-level decides its level
+	levelGiven := false
 	if h.OutlineLevel != "" {
 		if level, err := strconv.Atoi(h.OutlineLevel); err == nil && level >= 1 && level <= 9 {
 			parsed.Level = level
+			levelGiven = true
 		}
 	}
 
@@ -913,8 +915,9 @@ func (r *Reader) processHeading(h headingXML) parsedParagraph {
 	if r.styleResolver != nil {
 		resolved := r.styleResolver.Resolve(h.StyleName)
 		parsed.Alignment = resolved.Alignment
-		// If style has heading level, prefer that
-		if resolved.IsHeading && resolved.HeadingLevel > 0 {
+		// Without a level of its own the heading takes the one its style
+		// suggests (default outline level, or a level guessed from the name)
+		if !levelGiven && resolved.IsHeading && resolved.HeadingLevel > 0 {
 			parsed.Level = resolved.HeadingLevel
 		}
 	}
